@@ -1,5 +1,6 @@
 """Requirements helpers for pyscript."""
 
+import asyncio
 import glob
 from importlib.metadata import PackageNotFoundError, version as installed_version
 import logging
@@ -17,6 +18,7 @@ from .const import (
     DOMAIN,
     LOGGER_PATH,
     REQUIREMENTS_FILE,
+    REQUIREMENTS_LOCK,
     REQUIREMENTS_PATHS,
     UNPINNED_VERSION,
 )
@@ -190,6 +192,19 @@ def process_all_requirements(pyscript_folder, requirements_paths, requirements_f
 @bind_hass
 async def install_requirements(hass, config_entry, pyscript_folder):
     """Install missing requirements from requirements.txt."""
+
+    #
+    # one run at a time: a run works on a copy of the package tracker and writes it back at the end,
+    # so a run that starts while another one is still busy (eg, a reload while the installer is
+    # running) has to wait, otherwise whichever finishes last drops what the other one recorded
+    #
+    lock = hass.data.setdefault(DOMAIN, {}).setdefault(REQUIREMENTS_LOCK, asyncio.Lock())
+    async with lock:
+        return await _install_requirements(hass, config_entry, pyscript_folder)
+
+
+async def _install_requirements(hass, config_entry, pyscript_folder):
+    """Install missing requirements from requirements.txt; only one of these runs at a time."""
 
     pyscript_installed_packages = config_entry.data.get(CONF_INSTALLED_PACKAGES, {}).copy()
 
